@@ -106,6 +106,12 @@ def profile_each(rng: random.Random) -> S.SimCfg:
             cfg.behav[rng.randrange(n)] = [S.Behav("crash"), S.Behav("pass")]      # a single crash
         elif rng.random() < 0.5:
             cfg.p_crash, cfg.max_crashes = 0.01, 1
+    elif rng.random() < 0.6:
+        # an environment loses its worker before any test was handed out (while it starts, collects, or right after it reported
+        # its collection -- possibly before the others have reported theirs): the replacement is then one of the initial nodes
+        cfg.boot_crash[rng.randrange(cfg.numnodes)] = rng.choice(["collected", "collected", "collect", "boot"])
+        if cfg.restart == 0:
+            cfg.restart = rng.choice([None, 2, 4]) if not cfg.tx else rng.choice([2, 4])
     return cfg
 
 
@@ -629,6 +635,18 @@ def check_each(s: S.Sim, f: Facts, fire: Any) -> None:
     cfg = s.cfg
     n = f.n
     initial = s.workers[: cfg.numnodes]
+    # every environment runs every test: with equal collections and a run that ended normally, each test was started -- or, for
+    # a worker that died before it got that far, reported as crashed -- once per environment, whoever died whenever
+    started = Counter(i for w in s.workers for i, _ in w.ran)
+    for p in f.crashrep:
+        d = s.by_id.get(p[1])
+        if p[2] in cfg.ids and d is not None and cfg.ids.index(p[2]) not in [i for i, _ in d.ran]:
+            started[cfg.ids.index(p[2])] += 1
+    short = {i: started[i] for i in range(n) if started[i] < cfg.numnodes}
+    if short:
+        fire(["C08"], "each-environment-skipped-tests",
+             f"{cfg.numnodes} environments, run finished normally, but tests were started (or reported as crashed) fewer times: {short}; "
+             f"per worker: { {w.id: [i for i, _ in w.ran] for w in s.workers} }")
     if not f.dead:
         for w in initial:
             seq = [i for i, _ in w.ran]
